@@ -446,6 +446,35 @@ class Gen:
             self.emit("m probe %d" % tid)
 
 
+def big_stream(rng, hashmode=4, nmixed=6000):
+    """the REAL stripe limit (kMaxNumLocks = 65536, no hook override): a table of 2^16 buckets is filled until it doubles
+    with deferred per-stripe migration, then worked on while tens of thousands of stripes are still pending; digests at a
+    few points (every cell of both arrays, every counter and flag), no quadratic requests (inv / iter)"""
+    cfg = Cfg(4, 65536, 0, hashmode)
+    lines = [cfg.line(), "m new 0 262144", "m setmlf 0 0", "m digest 0"]
+    n = 262144 + rng.randrange(8000, 30000)
+    for k in range(n):
+        lines.append("m insert 0 %d %d" % (k, k % 1000))
+    lines += ["m stats 0", "m digest 0"]
+    for j in range(nmixed):
+        x = rng.random()
+        k = rng.randrange(n + 1000)
+        if x < 0.35:
+            lines.append("m find 0 %d" % k)
+        elif x < 0.6:
+            lines.append("m erase 0 %d" % k)
+        elif x < 0.8:
+            lines.append("m insert 0 %d %d" % (k + n, 7))
+        elif x < 0.9:
+            lines.append("m upsert 0 %d %d 1 a,1,0 a,3,0" % (k, 5))
+        else:
+            lines.append("m update 0 %d %d" % (k, 9))
+        if j % 1500 == 0:
+            lines.append("m digest 0")
+    lines += ["m stats 0", "m digest 0", "m lock 0", "m digest 0", "m ltinsert 0 %d 1" % (3 * n), "m unlock 0", "m digest 0", "m stats 0"]
+    return cfg, lines
+
+
 def run_pair(exe, lines, timeout=None):
     """returns (cpp_lines, lean_lines, info)"""
     inp = "\n".join(lines) + "\n"
@@ -484,6 +513,7 @@ class RefMap:
         self.wires = {}
         self.fails = []
         self.pol = 0
+        self.transferred = {}
         self.size_req = {}
         self.read_settings = {}
         self.alloc = {}
@@ -491,6 +521,15 @@ class RefMap:
 
     def fail(self, prop, i, line, got, why):
         self.fails.append({"property": prop, "op_index": i, "op": line, "implementation_answer": got, "why": why})
+        # an object produced by copy / move / swap / an allocator-extended constructor that then misbehaves (wrong size,
+        # broken structure, lost or extra keys) did not receive the complete state: also a C11 failure
+        try:
+            tid = int(line.split()[2])
+        except (IndexError, ValueError):
+            return
+        if prop != "C11" and self.transferred.get(tid):
+            self.fails.append({"property": "C11", "op_index": i, "op": line, "implementation_answer": got,
+                               "why": "on an object produced by copy/move/swap: " + why})
 
     @staticmethod
     def fn(spec, v):
@@ -514,6 +553,7 @@ class RefMap:
             self.pol = int(w[2])
             return
         if op in ("new", "newa"):
+            self.transferred[tid] = False
             self.maps[tid] = {}
             self.locked[tid] = False
             self.mlf[tid] = MLF_DEFAULT
@@ -524,6 +564,9 @@ class RefMap:
             return
         if op in ("copy", "move", "swap", "copya", "movea"):
             src = int(w[2])
+            self.transferred[tid] = True
+            if op == "swap":
+                self.transferred[src] = True
             if got != "ok":
                 if not got.startswith("bad-table"):
                     self.fail("C11", i, line, got, "copy/move/swap failed")
